@@ -370,4 +370,224 @@ theorem crossR_vertical {inp inp' : Input} {ty tx : Nat} (hc : CropOf inp inp' t
   rw [filteredR_transport hc k (y' + inp'.off) (xr + inp'.off) (by omega), ho]
   congr 1 <;> omega
 
+/-! ### the facing column -/
+
+theorem floor_add_nat (c : ℚ) (n : Nat) : (c + (n : ℚ)).floor = c.floor + (n : Int) := by
+  apply le_antisymm
+  · have h := Rat.lt_floor_add_one c
+    push_cast at h
+    have : (c + (n : ℚ)).floor < c.floor + (n : Int) + 1 :=
+      Rat.floor_lt_iff.mpr (by push_cast; linarith)
+    omega
+  · exact Rat.le_floor_iff.mpr (by push_cast; linarith [Rat.floor_le c])
+
+/-- the facing right column of `x` is `xr`, and that of `x + tx` is `xr + tx` -/
+theorem rightCol_transport (d : ℚ) (Wr Wr' x tx : Nat) (h0 : 0 ≤ (x : ℚ) + d)
+    (hW' : ((x : ℚ) + d).floor.toNat + 1 ≤ Wr') (hW : ((x : ℚ) + d).floor.toNat + tx + 1 ≤ Wr) :
+    rightCol d Wr' x = some ((x : ℚ) + d).floor.toNat ∧
+    rightCol d Wr (x + tx) = some (((x : ℚ) + d).floor.toNat + tx) := by
+  have hf0 : 0 ≤ ((x : ℚ) + d).floor := Rat.le_floor_iff.mpr (by simpa using h0)
+  have hlt := Rat.lt_floor_add_one ((x : ℚ) + d)
+  push_cast at hlt
+  have hnat : ((((x : ℚ) + d).floor.toNat : Nat) : ℚ) = ((((x : ℚ) + d).floor : Int) : ℚ) := by
+    have : ((((x : ℚ) + d).floor.toNat : Nat) : Int) = ((x : ℚ) + d).floor := Int.toNat_of_nonneg hf0
+    exact_mod_cast congrArg (fun z : Int => (z : ℚ)) this
+  constructor
+  · unfold rightCol
+    have hlt' : (x : ℚ) + d < (Wr' : ℚ) := by
+      have : ((((x : ℚ) + d).floor.toNat + 1 : Nat) : ℚ) ≤ (Wr' : ℚ) := by exact_mod_cast hW'
+      push_cast at this
+      linarith
+    simp only [h0, hlt', and_self, if_true]
+  · unfold rightCol
+    have e : (((x + tx : Nat) : ℚ) + d) = ((x : ℚ) + d) + (tx : ℚ) := by push_cast; ring
+    rw [e]
+    have h0' : 0 ≤ (x : ℚ) + d + (tx : ℚ) := by
+      have : (0 : ℚ) ≤ (tx : ℚ) := by exact_mod_cast Nat.zero_le tx
+      linarith
+    have hlt' : (x : ℚ) + d + (tx : ℚ) < (Wr : ℚ) := by
+      have : ((((x : ℚ) + d).floor.toNat + tx + 1 : Nat) : ℚ) ≤ (Wr : ℚ) := by exact_mod_cast hW
+      push_cast at this
+      linarith
+    simp only [h0', hlt', and_self, if_true, floor_add_nat]
+    congr 1
+    omega
+
+theorem hLeft_of_rightCol (P : Plane) (x xr y' : Nat) (h : rightCol P.d P.Wr x = some xr) :
+    hLeft P x y' = min (P.armsL y' x).left (P.armsR y' xr).left ∧
+    hRight P x y' = min (P.armsL y' x).right (P.armsR y' xr).right := by
+  unfold hLeft hRight comb
+  simp [h]
+
+/-! ### the whole step -/
+
+/-- **Cross-based aggregation: crop run = whole run on cone-interior pixels.**
+    `inp'` is a crop of the scene of `inp` (same configuration, `CropOf`), plane `dsp'` of the crop's volume
+    and plane `dsp` of the whole volume are the same disparity and hold the same costs on the crop.
+    With `D = armBound cbca_distance`, a pixel `(y, x)` of the crop (full-image coordinates of the crop) such
+    that `D + 1` rows above and below it, `D + 1` columns left and right of it, and `D + 1` (`+ 1` for the
+    interpolated right image) columns around its facing right column `xr = ⌊x - off + d⌋` lie in the
+    aggregated area of the crop gets exactly the aggregated cost of pixel `(y + ty, x + tx)` of the whole
+    run.  (`nanOutside`: the costs are NaN where the disparity has no facing column — what the matching cost
+    produces; hypothesis of C11's theorem.) -/
+theorem cbca_crop_eq_whole (inp inp' : Input) (ty tx : Nat) (hc : CropOf inp inp' ty tx) (dsp dsp' : Nat)
+    (hd : inp'.disp dsp' = inp.disp dsp)
+    (hcv : ∀ y x, y < inp'.H → x < inp'.W → inp'.cv y x dsp' = inp.cv (y + ty) (x + tx) dsp)
+    (hN : nanOutside (inp.plane dsp) = true) (hN' : nanOutside (inp'.plane dsp') = true)
+    (y x : Nat)
+    (hy : inp.off + armBound inp.dist + 1 ≤ y ∧ y + armBound inp.dist + 1 + inp.off < inp'.H)
+    (hx : inp.off + armBound inp.dist + 1 ≤ x ∧ x + armBound inp.dist + 1 + inp.off < inp'.W)
+    (hd0 : 0 ≤ ((x - inp.off : Nat) : ℚ) + inp.disp dsp)
+    (hxr : armBound inp.dist + 1 ≤ (((x - inp.off : Nat) : ℚ) + inp.disp dsp).floor.toNat ∧
+      (((x - inp.off : Nat) : ℚ) + inp.disp dsp).floor.toNat + armBound inp.dist + 2 + 2 * inp.off < inp'.W) :
+    aggregate inp' y x dsp' = aggregate inp (y + ty) (x + tx) dsp := by
+  have hfH := hc.fitH
+  have hfW := hc.fitW
+  have ho := hc.off
+  -- area coordinates
+  obtain ⟨ya, hya⟩ : ∃ ya, y = ya + inp.off := ⟨y - inp.off, by omega⟩
+  obtain ⟨xa, hxa⟩ : ∃ xa, x = xa + inp.off := ⟨x - inp.off, by omega⟩
+  subst hya hxa
+  simp only [Nat.add_sub_cancel] at hd0 hxr
+  generalize hxrdef : (((xa : ℚ) + inp.disp dsp).floor.toNat) = xr at hxr
+  set D := armBound inp.dist with hD
+  have hh' : inp'.h = inp'.H - 2 * inp.off := by unfold Input.h; rw [ho]
+  have hw' : inp'.w = inp'.W - 2 * inp.off := by unfold Input.w; rw [ho]
+  have hA' : inArea inp' (ya + inp.off) (xa + inp.off) = true := by
+    unfold inArea; rw [hh', hw', ho]; simp only [decide_eq_true_eq]; omega
+  have hA : inArea inp (ya + inp.off + ty) (xa + inp.off + tx) = true := by
+    unfold inArea Input.h Input.w; simp only [decide_eq_true_eq]; omega
+  unfold aggregate aggregateWith
+  rw [if_pos hA', if_pos hA, ho]
+  have ey : ya + inp.off + ty - inp.off = ya + ty := by omega
+  have ex : xa + inp.off + tx - inp.off = xa + tx := by omega
+  rw [ey, ex, Nat.add_sub_cancel, Nat.add_sub_cancel]
+  show aggOut (inp'.plane dsp') ya xa = aggOut (inp.plane dsp) (ya + ty) (xa + tx)
+  have hPH' : (inp'.plane dsp').H = inp'.h := rfl
+  have hPW' : (inp'.plane dsp').W = inp'.w := rfl
+  have hPH : (inp.plane dsp).H = inp.h := rfl
+  have hPW : (inp.plane dsp).W = inp.w := rfl
+  have hhw : inp.h = inp.H - 2 * inp.off := rfl
+  have hww : inp.w = inp.W - 2 * inp.off := rfl
+  rw [aggOut_eq_aggSpec _ (C11.crossSupport_in_image _ _ _ _ _ _) hN' ya xa (by rw [hPH', hh']; omega)
+      (by rw [hPW', hw']; omega),
+    aggOut_eq_aggSpec _ (C11.crossSupport_in_image _ _ _ _ _ _) hN (ya + ty) (xa + tx) (by rw [hPH, hhw]; omega)
+      (by rw [hPW, hww]; omega)]
+  -- the planes
+  set P' := inp'.plane dsp' with hP'
+  set P := inp.plane dsp with hP
+  set k := iRight inp.subpix (inp.disp dsp) with hk
+  have hk' : iRight inp'.subpix (inp'.disp dsp') = k := by rw [hc.subpix, hd]
+  have hPd' : P'.d = inp.disp dsp := hd
+  have hPd : P.d = inp.disp dsp := rfl
+  have hPWr' : P'.Wr = inp'.wr k := by show inp'.wr (iRight inp'.subpix (inp'.disp dsp')) = _; rw [hk']
+  have hPWr : P.Wr = inp.wr k := rfl
+  have hPaL' : P'.armsL = inp'.crossL := rfl
+  have hPaL : P.armsL = inp.crossL := rfl
+  have hPaR' : P'.armsR = inp'.crossR k := by show inp'.crossR (iRight inp'.subpix (inp'.disp dsp')) = _; rw [hk']
+  have hPaR : P.armsR = inp.crossR k := rfl
+  have hPcv' : ∀ a b, P'.cv a b = inp'.cv (a + inp.off) (b + inp.off) dsp' := by
+    intro a b; show inp'.cv (a + inp'.off) (b + inp'.off) dsp' = _; rw [ho]
+  have hPcv : ∀ a b, P.cv a b = inp.cv (a + inp.off) (b + inp.off) dsp := fun _ _ => rfl
+  -- the facing column
+  have hwr' : xr + 1 ≤ inp'.wr k := by unfold Input.wr; rw [ho]; split <;> omega
+  have hwr : xr + tx + 1 ≤ inp.wr k := by unfold Input.wr; split <;> omega
+  have hrc := rightCol_transport (inp.disp dsp) (inp.wr k) (inp'.wr k) xa tx hd0
+    (by rw [hxrdef]; exact hwr') (by rw [hxrdef]; exact hwr)
+  rw [hxrdef] at hrc
+  have hrc' : rightCol P'.d P'.Wr xa = some xr := by rw [hPd', hPWr']; exact hrc.1
+  have hrcW : rightCol P.d P.Wr (xa + tx) = some (xr + tx) := by rw [hPd, hPWr]; exact hrc.2
+  -- horizontal arms on the rows near the pixel
+  have hrows : ∀ y', ya - D ≤ y' → y' ≤ ya + D →
+      hLeft P (xa + tx) (y' + ty) = hLeft P' xa y' ∧ hRight P (xa + tx) (y' + ty) = hRight P' xa y' ∧
+        hLeft P' xa y' ≤ D ∧ hRight P' xa y' ≤ D := by
+    intro y' h1 h2
+    have hL := crossL_horizontal hc y' xa (by rw [hh']; omega) (by rw [hw']; omega)
+    have hR := crossR_horizontal hc k y' xr (by rw [hh']; omega) (by rw [hw']; omega)
+    have e' := hLeft_of_rightCol P' xa xr y' hrc'
+    have e := hLeft_of_rightCol P (xa + tx) (xr + tx) (y' + ty) hrcW
+    rw [hPaL', hPaR'] at e'
+    rw [hPaL, hPaR] at e
+    have hb := crossSupport_le_bound inp'.mr inp'.h inp'.w inp'.dist inp'.I (crop inp'.off inp'.filteredL) y' xa
+    have hb1 : (inp'.crossL y' xa).left ≤ armBound inp'.dist := hb.1
+    have hb2 : (inp'.crossL y' xa).right ≤ armBound inp'.dist := hb.2.1
+    rw [hc.dist] at hb1 hb2
+    rw [e.1, e.2, e'.1, e'.2, hL.1, hL.2, hR.1, hR.2]
+    refine ⟨rfl, rfl, ?_, ?_⟩ <;> omega
+  -- the arms of the pixel itself
+  have hLh := crossL_horizontal hc ya xa (by rw [hh']; omega) (by rw [hw']; omega)
+  have hLv := crossL_vertical hc ya xa (by rw [hh']; omega) (by rw [hw']; omega)
+  have hRh := crossR_horizontal hc k ya xr (by rw [hh']; omega) (by rw [hw']; omega)
+  have hRv := crossR_vertical hc k ya xr (by rw [hh']; omega) (by rw [hw']; omega)
+  have hcomb' : comb P' ya xa = some ⟨min (inp'.crossL ya xa).left (inp'.crossR k ya xr).left,
+      min (inp'.crossL ya xa).right (inp'.crossR k ya xr).right,
+      min (inp'.crossL ya xa).top (inp'.crossR k ya xr).top,
+      min (inp'.crossL ya xa).bot (inp'.crossR k ya xr).bot⟩ := by
+    unfold comb; rw [hrc', hPaL', hPaR']
+  have hcomb : comb P (ya + ty) (xa + tx) = some ⟨min (inp'.crossL ya xa).left (inp'.crossR k ya xr).left,
+      min (inp'.crossL ya xa).right (inp'.crossR k ya xr).right,
+      min (inp'.crossL ya xa).top (inp'.crossR k ya xr).top,
+      min (inp'.crossL ya xa).bot (inp'.crossR k ya xr).bot⟩ := by
+    unfold comb; rw [hrcW, hPaL, hPaR, hLh.1, hLh.2, hLv.1, hLv.2, hRh.1, hRh.2, hRv.1, hRv.2]
+  have hbc := crossSupport_le_bound inp'.mr inp'.h inp'.w inp'.dist inp'.I (crop inp'.off inp'.filteredL) ya xa
+  have hbt : (inp'.crossL ya xa).top ≤ armBound inp'.dist := hbc.2.2.1
+  have hbb : (inp'.crossL ya xa).bot ≤ armBound inp'.dist := hbc.2.2.2
+  rw [hc.dist] at hbt hbb
+  have hreg := region_transport P P' ya xa ty tx _ hcomb' hcomb (by simp only; omega)
+    (by
+      intro y' h1 h2
+      simp only at h1 h2
+      have := hrows y' (by omega) (by omega)
+      exact ⟨this.1, this.2.1, by omega⟩)
+    (by
+      intro y' x' h1 h2 h3 h4
+      simp only at h1 h2
+      have := hrows y' (by omega) (by omega)
+      rw [hPcv, hPcv', hcv (y' + inp.off) (x' + inp.off) (by omega) (by omega)]
+      congr 1 <;> omega)
+  unfold aggSpec
+  have hcell : P'.cv ya xa = P.cv (ya + ty) (xa + tx) := by
+    rw [hPcv, hPcv', hcv (ya + inp.off) (xa + inp.off) (by omega) (by omega)]
+    congr 1 <;> omega
+  rw [hcell, hreg.1, hreg.2]
+
+/-! ### Non-vacuity: a 6 × 8 scene (distance 2, disparity 0) and its 5 × 7 crop starting at (1, 1); pixel
+    (2, 2) of the crop satisfies every hypothesis of `cbca_crop_eq_whole` -/
+
+def exWhole : Input where
+  H := 6
+  W := 8
+  off := 0
+  imL := fun y x => ((y * x : Nat) : Rat)
+  hasMskL := false
+  mskL := fun _ _ => 0
+  validL := 0
+  imR := fun y x => ((y + x : Nat) : Rat)
+  hasMskR := false
+  mskR := fun _ _ => 0
+  validR := 0
+  dist := 2
+  I := 5
+  subpix := 1
+  disp := fun _ => 0
+  cv := fun y x _ => .num ((y + 2 * x : Nat) : Rat)
+  mr := .loopVar
+
+def exCrop : Input :=
+  { exWhole with
+    H := 5, W := 7
+    imL := fun y x => exWhole.imL (y + 1) (x + 1)
+    mskL := fun y x => exWhole.mskL (y + 1) (x + 1)
+    imR := fun y x => exWhole.imR (y + 1) (x + 1)
+    mskR := fun y x => exWhole.mskR (y + 1) (x + 1)
+    cv := fun y x d => exWhole.cv (y + 1) (x + 1) d }
+
+theorem exCropOf : CropOf exWhole exCrop 1 1 :=
+  ⟨rfl, rfl, rfl, rfl, rfl, rfl, rfl, rfl, rfl, by decide, by decide,
+   fun _ _ _ _ => rfl, fun _ _ _ _ => rfl, fun _ _ _ _ => rfl, fun _ _ _ _ => rfl⟩
+
+example : aggregate exCrop 2 2 0 = aggregate exWhole (2 + 1) (2 + 1) 0 :=
+  cbca_crop_eq_whole exWhole exCrop 1 1 exCropOf 0 0 rfl (fun _ _ _ _ => rfl)
+    (by decide +kernel) (by decide +kernel) 2 2 (by decide) (by decide) (by decide +kernel) (by decide +kernel)
+
 end Pandora.C13
